@@ -55,7 +55,8 @@ def _case(draw):
             table["records"].insert(draw(st.integers(src + 1, len(table["records"]))), list(table["records"][src]))
     order = draw(st.permutations(list(range(n))))
     members = [members[i] for i in order]
-    return {"table": table, "members": members, "if_all_agree": draw(st.booleans())}
+    return {"table": table, "members": members, "if_all_agree": draw(st.booleans()),
+            "delimiter": draw(st.sampled_from([",", ",", ",", ";", "|"]))}
 
 
 def strategy(tier):
@@ -73,13 +74,14 @@ KEYS = ("variables", "is_valid", "scan_count", "match_count", "errors")
 def run_case(case, sb):
     records = case["table"]["records"]
     members = case["members"]
-    rel = sb.write_csv("f.csv", records)
+    dl = case.get("delimiter", ",")
+    rel = sb.write_csv("f.csv", records, delimiter=dl)
     # reference: standalone runs
     ref = []
     for m in members:
-        r = real.run_path(member_text(m, rel))
+        r = real.run_path(member_text(m, rel), delimiter=dl)
         ref.append(r)
-    labels = [f"members:{len(members)}"]
+    labels = [f"members:{len(members)}", f"delimiter:{dl}"]
     if any(r["raised"] for r in ref):
         # a program the standalone run rejects is outside this property's relation
         return core.outcome(undefined=True, labels=["standalone-raised"])
@@ -99,8 +101,8 @@ def run_case(case, sb):
         labels.append("duplicate-rows")
     for method in real.METHODS:
         sb_reset_archive(sb)
-        cps = real.new_csvpaths()
-        real.setup_group(sb, cps, "g", texts, "f", records)
+        cps = real.new_csvpaths(delimiter=dl)
+        real.setup_group(sb, cps, "g", texts, "f", records, delimiter=dl)
         out = real.run_group(cps, "g", "f", method, if_all_agree=case["if_all_agree"])
         if out["raised"]:
             problems.append({"method": method, "raised": out["raised"]})
@@ -120,6 +122,11 @@ def run_case(case, sb):
             if not any_errors and o["printouts"] != r["printouts"]:
                 problems.append({"method": method, "member": m["id"], "field": "printouts", "standalone": r["printouts"], "group": o["printouts"]})
             if method in ("collect_paths", "collect_by_line"):
+                if dl != ",":
+                    # data.csv is always written in the default dialect: read it back that way
+                    from . import c09
+                    dp = out["_results"][i].data_file_path
+                    o = dict(o, lines=(c09.read_csv(dp) if os.path.isfile(dp) else []))
                 if o["lines"] != r["lines"]:
                     problems.append({"method": method, "member": m["id"], "field": "lines", "standalone": r["lines"], "group": o["lines"]})
         if method == "next_paths":
@@ -137,6 +144,11 @@ def run_case(case, sb):
             elif to_end:
                 if got != inter:
                     problems.append({"method": method, "yielded_intersection_expected": inter, "observed": got})
+            else:
+                # members finish at different lines: whatever a finished member's vote is taken to be,
+                # a yielded line was returned by at least one member, once, in file order
+                if any(g not in union for g in got) or len(got) != len(set(got)) or got != [i for i in file_ids if i in got]:
+                    problems.append({"method": method, "yielded_not_within_union": got, "union": union})
         if len(problems) > 6:
             break
     if len(byline_yield) == 2 and byline_yield["collect_by_line"] != byline_yield["next_by_line"]:
